@@ -26,6 +26,7 @@ class Contract:
         self.module = module
         self.params = opts.get("params", {})
         self.returns = opts.get("returns")
+        self.when = opts.get("when")
         self.yields = opts.get("yields")
         self.modifies = opts.get("modifies", [])
         self.modifies_on_raise = opts.get("modifies_on_raise", [])
@@ -302,6 +303,10 @@ class Registry:
             return default
 
         def fits(c):
+            for pn, const in (c.when or {}).items():
+                v = bound.get(pn)
+                if v is None or vals.concrete_str(it.deref(v)) != const:
+                    return False
             for pn, kind in c.params.items():
                 v = bound.get(pn)
                 d = it.deref(v) if v is not None else None
@@ -313,9 +318,14 @@ class Registry:
                     return False
             return True
 
+        for c in variants:   # a variant for particular constant arguments takes precedence
+            if c.when and fits(c):
+                return c
         if fits(default):
             return default
         for c in variants:
+            if c.when:
+                continue
             if fits(c):
                 return c
         return default
